@@ -376,7 +376,14 @@ def r_find(repo, rep):
                         'the entry is cut at the first/last "-" only (%s): an entry with more than one "-" is not rejected for its arity, the remainder is handed to the date parser'
                         % joined[:100], f.loc(tw))
         else:
-          rep.undecided('R4/parse', 'TimeWindow(%s, %s)' % tuple(exp), 'arguments are not parts of entry.split("-")', f.loc(tw))
+          verdict = _regex_parse(f, rd, at, args, (param, entry))
+          if verdict is not None and verdict[0] is False:
+            rep.violation('R4/parse', f.qualname, verdict[1][:100],
+                          'the entry is parsed with `%s`, whose pattern %r is not anchored at the end: any text after a well-formed prefix is ignored, so a malformed entry (a third part, trailing characters) is accepted instead of raising ValueError'
+                          % (verdict[1][:60], verdict[2][:80]), f.loc(tw))
+          else:
+            rep.undecided('R4/parse', 'TimeWindow(%s, %s)' % tuple(exp), 'arguments are not parts of entry.split("-")' +
+                          ('' if verdict is None else ' (regular expression %r consumes the whole entry; its language is not modelled)' % verdict[2][:60]), f.loc(tw))
         continue
 
       def arity_is(k):
@@ -464,6 +471,36 @@ def r_timewindow(repo, rep):
                 'reversed range raises %s instead of ValueError' % exn, f.loc(r.ast))
   rep.check(n in g.dominators(cfgmod.no_exc).get(g.exit, set()), 'R4/ordering-guard', 'the ordering guard dominates normal construction',
             f.qualname, norm(n.expr), 'some path constructs a TimeWindow without the ordering test', f.loc(n.expr))
+
+
+def _regex_parse(f, rd, at, args, keep):
+  """(whole_string, call text, pattern) of the regular-expression match the window arguments are taken from, or None."""
+  from mmsa import regexes
+  assigns = f.module.assigns
+  trees = []
+  seen = set()
+  work = [(at, x) for x in args]
+  while work and len(seen) < 40:
+    n_, x_ = work.pop()
+    e_ = rd.expand(n_, x_, keep=keep, aliases=True)[0]
+    trees.append(e_)
+    for nm_ in [y_ for y_ in ast.walk(e_) if isinstance(y_, ast.Name)]:
+      for d_ in rd.defs_at(n_, nm_.id):
+        if d_.value is not None and id(d_) not in seen:
+          seen.add(id(d_))
+          work.append((d_.node, d_.value))
+  for t in trees:
+    for c in ast.walk(t):
+      if not (isinstance(c, ast.Call) and isinstance(c.func, ast.Attribute) and c.func.attr in ('match', 'search', 'fullmatch')):
+        continue
+      if au.lib_name(f.module, c.func) in ('re.match', 're.search', 're.fullmatch') and c.args:
+        pat = regexes.fold_string(c.args[0], assigns)
+      else:
+        pat = regexes.compiled_pattern(c.func.value, assigns)
+      if pat is None:
+        continue
+      return regexes.whole_string(c.func.attr, pat), norm(c), pat
+  return None
 
 
 def run(repo, rep, tier):
